@@ -36,6 +36,12 @@ def main():
     except (KeyboardInterrupt, MemoryError):
         traceback.print_exc()
         sys.exit(common.EXIT_BROKEN)
+    except common.CorrespondenceBroken as e:
+        traceback.print_exc()
+        if a.replay or "chk" not in locals():
+            sys.exit(common.EXIT_BROKEN)
+        chk.violation(f"obligation-broken: correspondence: {e.what}", dict(e.detail, note="no failing input found; the run of the suite stopped here"), found_input=False)
+        chk.finish()
     except BaseException as e:
         traceback.print_exc()
         # Where did it come from? An exception raised INSIDE the repository under test, on inputs on which the
